@@ -647,9 +647,12 @@ class FactsProblem(Problem):
             cf = self._counted_for(succ)
             if cf is not None:
                 v, lo_t, lo_k, body = cf
+                ghost = f"forpre_{succ.id}"
                 if n.ast is not None and id(n.ast) in body:
                     z.shift(v, 1)                 # next iteration: the variable is one more than in the last
                 else:
+                    z.kill(ghost)
+                    z.add_eq(ghost, v, 0)         # remember what the variable held before the loop (kept if the range is empty)
                     z.kill(v)
                     z.add_eq(v, lo_t, lo_k)       # first iteration
         return z
@@ -688,8 +691,17 @@ class FactsProblem(Problem):
                             z.kill(kp)
                 self._range_facts(z, a)
             elif label == "done" and self._counted_for(n) is not None:
-                # the loop variable keeps its last value (or is unbound): what was tracked for the next iteration does not hold
-                z.kill(self._counted_for(n)[0])
+                # the state tracks the value the variable would take in the *next* iteration; when the range is exhausted the
+                # variable holds the previous value (tracked - 1), or - no iteration at all - what it held before the loop
+                v = self._counted_for(n)[0]
+                ghost = f"forpre_{n.id}"
+                z1 = z.copy()
+                z1.kill(v)
+                z1.add_eq(v, ghost, 0)
+                z2 = z.copy()
+                z2.shift(v, -1)
+                z = z1.join(z2)
+                z.kill(ghost)
             return z
         if n.kind == "with":
             for it in a.items:
